@@ -19,7 +19,8 @@ LEVEL_TEXT = ("Per-operation heap contracts (pre/post over the whole view + fram
               "returned array - new storage holding the old values - so a merge written through a linked row (C11's aliasing case `out is drop1`) changes "
               "exactly member i; requires distinct member objects). "
               "get_trajectory (entry k = attribute of droplet k; Gaussian filter exactly for a non-zero smoothing, in place on the new array, along time). "
-              "Still bounded only: bounding box (py-pde Cuboid sum) and the composition of these per-operation contracts over arbitrary operation "
+              "bbox (fold of the members' boxes [position - radius, position + radius] from member 0 over members 1.. with py-pde's Cuboid `+`; empty: RuntimeError). "
+              "Still bounded only: the composition of these per-operation contracts over arbitrary operation "
               "sequences (induction over the sequence is a meta-argument; the operation-sequence stand-in compares with a list model) - hence level "
               "'other', not 'proof'.")
 LEVEL_NOTE = ("A-FP; heap model (references, records, python lists as length + element map; numpy record copy = new storage with equal "
@@ -32,7 +33,7 @@ CONTRACTS = [c.ident for c in (co.DropletCopy(), co.EmulsionAppend(), co.Emulsio
                                co.TrackDuration(), co.ETCAppend(), co.ETCClear(), co.EmulsionInterfaceWidth(),
                                em.RemoveOverlapping(), em.RemoveOverlappingIdempotent(), tk.TrackInit(),
                                c2.EmulsionInit(), c2.EmulsionCopy(), c2.EmulsionAdd(), c2.EmulsionGetitem(), c2.TotalVolume(), c2.SizeStatistics(),
-                               c2.ETCGetitem(), c2.ETCLen(), c2.ETCGetEmulsion(), c2.TrackGetitem(), c2.TrackTimeOverlaps(), c2.RemoveShortTracks(), c2.LinkedData(), c2.TrackTrajectory())]
+                               c2.ETCGetitem(), c2.ETCLen(), c2.ETCGetEmulsion(), c2.TrackGetitem(), c2.TrackTimeOverlaps(), c2.RemoveShortTracks(), c2.LinkedData(), c2.TrackTrajectory(), c2.EmulsionBBox())]
 LEMMAS = []
 BOUNDED = [collmodel.CollectionModel(), ContractSampling("collection-contracts-on-real-objects", CONTRACTS,
                             "each operation contract on 8 (quick) / 80 (thorough) seeded collections of 0-5 droplets incl. time 0, width 0/None, "
